@@ -94,6 +94,15 @@ Proof. exact escape_sites_as_modelled. Qed.
 
 Print Assumptions C02_escape_covers_keywords.
 Print Assumptions C02_keyword_table_is_spec.
+(* package declarations and import paths (fix 80edd16): every segment of the module path is passed through the keyword escape, so no
+   segment is written as a bare keyword (`package enum` was emitted for the placeholder of enum.Flag) *)
+Theorem C02_module_path_segments_escaped : forall p,
+  escape_path p = join ["."%char] (map escape (split_ch "."%char p)) /\
+  Forall escaped_segment (map escape (split_ch "."%char p)).
+Proof. exact escape_path_segments. Qed.
+Theorem C02_module_header_escapes_path : forall nc package_info,
+  exists pre, module_header nc package_info = pre ++ K"package " ++ escape_path (convert nc false package_info) ++ NL.
+Proof. exact module_header_escapes_path. Qed.
 Print Assumptions C02_escape_shape.
 Print Assumptions C02_name_sites_escaped.
 Print Assumptions C02_converted_ident_chars.
@@ -112,3 +121,5 @@ Print Assumptions C02_escape_sites.
 Print Assumptions C02_emitted_name_is_legal.
 Print Assumptions C02_unconvertible_names_kept.
 Print Assumptions C02_every_identifier_legal_refuted.
+Print Assumptions C02_module_path_segments_escaped.
+Print Assumptions C02_module_header_escapes_path.
